@@ -296,6 +296,8 @@ enum POp {
     /// the same as SetGid through the batch-modify path
     BatchSetGid { slot: u8, gid: u32 },
     BatchPurgeGid { slot: u8 },
+    /// whole-attribute replace (`Modify::Set`, what SCIM PUT and assertions produce), plain or batch
+    ReplaceGid { slot: u8, gid: u32, batch: bool },
 }
 
 #[derive(Debug, Clone, Serialize, Deserialize)]
@@ -340,6 +342,7 @@ fn arb_pop() -> BoxedStrategy<POp> {
         1 => (slot.clone(), arb_gid()).prop_map(|(slot, gid)| POp::AddGid { slot, gid }),
         2 => slot.clone().prop_map(|slot| POp::PurgeGid { slot }),
         3 => (slot.clone(), arb_gid()).prop_map(|(slot, gid)| POp::BatchSetGid { slot, gid }),
+        4 => (slot.clone(), arb_gid(), proptest::bool::ANY).prop_map(|(slot, gid, batch)| POp::ReplaceGid { slot, gid, batch }),
         1 => slot.prop_map(|slot| POp::BatchPurgeGid { slot }),
     ]
     .boxed()
@@ -392,7 +395,7 @@ fn server(rt: &tokio::runtime::Runtime, c: &SCase) -> Outcome {
                 POp::CreatePosix { slot, gid, .. } => (*slot, *gid),
                 POp::CreatePlain { slot, .. } => (*slot, None),
                 POp::Enable { slot, gid } => (*slot, *gid),
-                POp::SetGid { slot, gid } | POp::AddGid { slot, gid } | POp::BatchSetGid { slot, gid } => (*slot, Some(*gid)),
+                POp::SetGid { slot, gid } | POp::AddGid { slot, gid } | POp::BatchSetGid { slot, gid } | POp::ReplaceGid { slot, gid, .. } => (*slot, Some(*gid)),
                 POp::PurgeGid { slot } | POp::BatchPurgeGid { slot } => (*slot, None),
             };
             let (before, prev_gid) = {
@@ -446,10 +449,14 @@ fn server(rt: &tokio::runtime::Runtime, c: &SCase) -> Outcome {
                                 Modify::Present(Attribute::GidNumber, Value::Uint32(*gid)),
                             ],
                             POp::AddGid { gid, .. } => vec![Modify::Present(Attribute::GidNumber, Value::Uint32(*gid))],
+                            POp::ReplaceGid { gid, .. } => vec![Modify::Set(
+                                Attribute::GidNumber,
+                                kanidmd_lib::valueset::from_value_iter(std::iter::once(Value::Uint32(*gid))).expect("valueset"),
+                            )],
                             _ => vec![Modify::Purged(Attribute::GidNumber)],
                         };
                         let ml = ModifyList::new_list(mods);
-                        if matches!(op, POp::BatchSetGid { .. } | POp::BatchPurgeGid { .. }) {
+                        if matches!(op, POp::BatchSetGid { .. } | POp::BatchPurgeGid { .. } | POp::ReplaceGid { batch: true, .. }) {
                             w.internal_batch_modify(once((s.uuid, ml)))
                         } else {
                             w.internal_modify_uuid(s.uuid, &ml)
